@@ -304,6 +304,32 @@ theorem oneshot_refines (syms : List Str) (entries : List Entry) (steps : List S
     · intro key id hk; simp [MethodH.HState.init, MethodH.aget] at hk
   exact C06HL.run_sim syms entries steps MethodH.HState.init 0 hr h0
 
+/-! ## 6b. guards created first, applied later (`Model/MethodG.lean`, the patch package used directly) -/
+
+/-- **what `Apply` installs is fixed at creation**: in every history
+    `pre ++ [g_h := InstanceMethod(T, m, cb)] ++ mid ++ [g_h.Apply()]` — whatever other guards are created, applied or
+    unpatched in `mid`, as long as `h` itself is not re-created — the method named at creation enters the callback given
+    at creation (number `pre.length`), not the one of a guard created later. -/
+theorem guard_installs_creation_callback (syms : List Str) (entries : List Entry) (pre mid : List MethodG.GStep)
+    (h : Nat) (t : Ty) (m : Str) (e : Entry)
+    (hr : resolveSM entries t m = .ok e.callSym) (hmem : e.callSym ∈ syms)
+    (hmid : ∀ st ∈ mid, st.binds h = false) :
+    behavOf syms (MethodG.grun syms entries MethodG.GState.init 0
+      (pre ++ ([MethodG.GStep.gnew h t m] ++ (mid ++ [MethodG.GStep.gapply h])))).1.patched e = some pre.length := by
+  obtain ⟨i, hi⟩ := symIndex_of_mem syms e.callSym hmem
+  have hg := symIndex_get syms e.callSym i hi
+  rw [C06GL.grun_append, C06GL.grun_append, C06GL.grun_append]
+  generalize (MethodG.grun syms entries MethodG.GState.init 0 pre).1 = s1
+  simp only [Nat.zero_add, List.length_singleton]
+  have h1 : MethodH.aget (MethodG.grun syms entries s1 pre.length [MethodG.GStep.gnew h t m]).1.guards h
+      = some ⟨e.callSym, pre.length, false⟩ := by
+    simp [MethodG.grun, MethodG.gstep, hr, hi, MethodH.aget]
+  generalize (MethodG.grun syms entries s1 pre.length [MethodG.GStep.gnew h t m]).1 = s2 at h1 ⊢
+  obtain ⟨g', hg', hn, hk⟩ := C06GL.grun_keeps syms entries mid s2 (pre.length + 1) h _ hmid h1
+  generalize (MethodG.grun syms entries s2 (pre.length + 1) mid).1 = s3 at hg' ⊢
+  simp only [] at hn hk
+  simp only [MethodG.grun, MethodG.gstep, hg', hn, hi, behavOf, hg, hk, if_true]
+
 /-! ## 7. the hypotheses are satisfiable / the statements are not vacuous -/
 
 section Examples
@@ -360,6 +386,18 @@ example :
     MethodH.behavOf exSyms (MethodH.run exSyms exEntries MethodH.HState.init 0
       [.look 0 (.structMethod ⟨pa, "T".toList, false⟩ "Get".toList), .ret 0 6, .cancel 0, .ret 0 7, .reset, .apply 0]).1.patched eT2 = none :=
   handle_isolation exSyms exEntries eT2 _ [eGet.callSym] (by decide) (by decide)
+/-- two guards created, then both applied (round-4 seed shape): each method gets its own callback -/
+example :
+    let s := (MethodG.grun exSyms exEntries MethodG.GState.init 0
+      [.gnew 0 ⟨pa, "T".toList, false⟩ "Get".toList, .gnew 1 ⟨pa, "T2".toList, false⟩ "Get".toList, .gapply 0, .gapply 1]).1
+    exEntries.map (behavOf exSyms s.patched) = [some 0, none, none, some 1, none, none] := by decide
+
+/-- the hypotheses of `guard_installs_creation_callback` hold with a guard for `T2.Get` created and applied in between -/
+example : behavOf exSyms (MethodG.grun exSyms exEntries MethodG.GState.init 0
+      ([] ++ ([MethodG.GStep.gnew 0 ⟨pa, "T".toList, false⟩ "Get".toList] ++
+        ([.gnew 1 ⟨pa, "T2".toList, false⟩ "Get".toList, .gapply 1] ++ [MethodG.GStep.gapply 0])))).1.patched eGet = some 0 :=
+  guard_installs_creation_callback exSyms exEntries [] _ 0 _ _ eGet
+    (resolveSM_named exEntries eGet (by decide) (by decide) (by decide)) (by decide) (by decide)
 end Examples
 
 end C06
